@@ -102,6 +102,32 @@ static void dense_apply(int n, const zq *A, int op, const zq *x, zq *y)
         if (op == 0) y[i] = zq_add(y[i], zq_mul(a, x[j])); else { if (op == 2) a.im = -a.im; y[j] = zq_add(y[j], zq_mul(a, x[i])); } }
 }
 
+/* reference solution of op(A) x = b: start from inv(A) b in extended precision, then refine with residuals accumulated in
+   __float128 (the entries of A and b are working-precision numbers, so the residual is exact to ~1e-34 relative).  *unc returns the
+   relative size of the last correction: a bound on how far the result still is from the exact solution. */
+typedef struct { __float128 re, im; } zqq;
+static void refine_exact(int n, const zq *A, const zq *Inv, int op, const zq *b, zq *x, ld *unc)
+{
+    zqq *X = hx_malloc(sizeof(zqq) * (n + 1)), *R = hx_malloc(sizeof(zqq) * (n + 1)); zq *r = hx_malloc(sizeof(zq) * (n + 1)), *dl = hx_malloc(sizeof(zq) * (n + 1));
+    for (int i = 0; i < n; ++i) { X[i].re = x[i].re; X[i].im = x[i].im; }
+    ld last = INFINITY;
+    for (int it = 0; it < 5; ++it) {
+        for (int i = 0; i < n; ++i) { R[i].re = b[i].re; R[i].im = b[i].im; }
+        for (int j = 0; j < n; ++j) for (int i = 0; i < n; ++i) { zq a = A[(size_t)j * n + i]; if (a.re == 0 && a.im == 0) continue;
+            __float128 ar = a.re, ai = (op == 2 ? -a.im : a.im); int tgt = op == 0 ? i : j, src = op == 0 ? j : i;
+            R[tgt].re -= ar * X[src].re - ai * X[src].im; R[tgt].im -= ar * X[src].im + ai * X[src].re; }
+        for (int i = 0; i < n; ++i) { r[i].re = (ld)R[i].re; r[i].im = (ld)R[i].im; }
+        dense_apply(n, Inv, op, r, dl);
+        ld dm = 0, xm = 0;
+        for (int i = 0; i < n; ++i) { X[i].re += dl[i].re; X[i].im += dl[i].im; ld a = zq_abs(dl[i]); if (a > dm) dm = a; zq xv = { (ld)X[i].re, (ld)X[i].im }; ld c = zq_abs(xv); if (c > xm) xm = c; }
+        last = xm > 0 ? dm / xm : 0;
+        if (last < 1e-25L) break;
+    }
+    for (int i = 0; i < n; ++i) { x[i].re = (ld)X[i].re; x[i].im = (ld)X[i].im; }
+    *unc = last;
+    hx_free(X); hx_free(R); hx_free(r); hx_free(dl);
+}
+
 static void check_scaling_rule(xd_t *d, int *rowequ_, int *colequ_)
 {
     fx_t *x = &d->x; const slu_vt *vt = x->vt; hx_matrix *M = x->M; int n = x->n; ld eps = vt->eps * (vt->is_complex ? 4 : 1);
@@ -266,11 +292,12 @@ void xd_check(xd_t *d, int want)
                 for (int i = 0; i < n; ++i) el_get(vt, d->b0, (long)k * d->ldb + i, &b[i].re, &b[i].im);
                 /* x_true = op(A)^{-1} b = op(inv(A)) b */
                 dense_apply(n, Inv0, op, b, xt);
+                ld runc = 1; refine_exact(n, A0, Inv0, op, b, xt, &runc);
                 ld err = 0, xm = 0; for (int i = 0; i < n; ++i) { zq v; el_get(vt, d->xval, (long)k * d->ldx + i, &v.re, &v.im); ld e = cmag(vt, zq_sub(v, xt[i])); if (e > err) err = e; ld a = cmag(vt, v); if (a > xm) xm = a; }
                 double fr = rs_get(vt, d->ferr, k);
                 feat("ferr", fr); feat("ferr_true", xm > 0 ? (double)(err / xm) : 0);
-                /* the extended-precision reference solution is itself only accurate to about n*kappa*LDBL_EPSILON */
-                ld ref_unc = 8 * (ld)n * kappa * LDBL_EPSILON;
+                /* uncertainty of the reference solution itself */
+                ld ref_unc = 16 * runc + 8 * (ld)n * LDBL_EPSILON;      /* after the quad-precision refinement (was ~ n*kappa*LDBL_EPSILON) */
                 if (xm > 0 && !(err / xm <= 40 * (ld)fr + 4 * ceps + ref_unc)) verdict_fail("C13:ferr_does_not_dominate", "rhs %d: true relative error %.3Le exceeds 40*ferr = %.3Le (kappa=%.2Lg, trans=%d equed=%d)", k, err / xm, 40 * (ld)fr, kappa, (int)d->trans, (int)d->equed);
             }
             hx_free(b); hx_free(xt);
